@@ -37,6 +37,8 @@ func checkC14(p *Prog, r *Report) {
 	}
 	respTrig := callbackTriggers(p, FN("FeatureLocal.responseMsgCallback"))
 	resTrig := callbackTriggers(p, FN("FeatureLocal.resultCallbacks"))
+	r.Rule("R7", "the callback sees the data as received: the merge the cache update runs leaves the received items alone (truth table of model.Merge, shared with C02-R11: per existing item it appends a new value and never writes into the update's own items)")
+	mergeTruthTable(p, r, "R7")
 	r.Rule("R6", "every hand-written element-wise comparison of two slices of one type compares their lengths for equality: a reply is never routed to the feature of an entity whose address is a prefix of the addressed one (shared lint, C20-R6)")
 	sliceEqualityHelpers(p, r, "R6")
 	r.Rule("R5", "registration is never dropped silently: AddResultCallback stores its callback on every path; AddResponseCallback on every path that does not return an error")
